@@ -1292,6 +1292,27 @@ pub fn spaces(tier: Tier) -> Vec<Space> {
         }));
     }
 
+    // 9a. push payload content: every one-byte and every two-byte payload as a minimal push, in an output script and in an
+    // unlocking script (hex text that spells a number, an alias or an opcode name must come back as the same push)
+    {
+        let a = alpha.clone();
+        v.push(Space::new("push-content", (256 + 65536) * 2, move |case, acc| {
+            let c = coords(case.idx, &[256 + 65536, 2]);
+            let data: Vec<u8> = if c[0] < 256 { vec![c[0] as u8] } else { vec![((c[0] - 256) >> 8) as u8, (c[0] - 256) as u8] };
+            let names = json!({"push_payload": hex::encode(&data), "carrier": if c[1] == 0 { "output script" } else { "unlocking script" }});
+            let sc = match guard(|| Script::from_bytes(&minimal_push(&data))) {
+                Ok(Ok(s)) => s,
+                _ => {
+                    acc.evaluations += 1;
+                    acc.bump("push_script_refused_by_parser", 1);
+                    return;
+                }
+            };
+            let t = if c[1] == 0 { tx_of(1, 0, &[], &[TxOut::new(1, &sc)]) } else { tx_of(1, 0, &[ordinary_in(&sc, 2, 0, 0xffff_ffff)], &[fixed_out(&a)]) };
+            check_tx(acc, case, &t, names, true);
+        }));
+    }
+
     // 10. 64-bit amounts: every power of two and its neighbours x place
     {
         let sv = satoshi_sweep(tier);
